@@ -248,6 +248,17 @@ pub fn judge(st: &mut Stats, rows: &Rows, cols: usize, companion: &Rows, ccols: 
             } else if !law {
                 st.violation(Violation { sig: "mul|transpose-law".into(), detail: "(AB)^T != B^T A^T".into(), witness: wit(rows, cols, "mul", false, 0) });
             }
+            // every spelling of the product (operands by reference or by value) is the same matrix
+            for (name, q) in [("ref*value", guarded(|| &t * x.clone())), ("value*ref", guarded(|| t.clone() * &x)), ("value*value", guarded(|| t.clone() * x.clone()))] {
+                match q {
+                    Err(e) => st.violation(Violation { sig: format!("mul|panic|{}", name), detail: e, witness: wit(rows, cols, "mul", false, 0) }),
+                    Ok(q) => {
+                        if q != p {
+                            st.violation(Violation { sig: format!("mul|spelling-differs|{}", name), detail: format!("{} gives\n{}instead of\n{}", name, q, p), witness: wit(rows, cols, "mul", false, 0) });
+                        }
+                    }
+                }
+            }
         }
     }
 }
